@@ -215,4 +215,44 @@ def fill_labels(facts, f, roles, api):
         for x in subexprs(w.expr):
             if x[0] == 'agg' and not x[3] and '::' in x[1] and x[1] not in ('tuple',):
                 d['labels'].add('c:' + x[1].rsplit('::', 1)[1])
+        # constants selected by a match on an argument: keep the variant <-> constant association
+        if w.via is None and not f.is_term(w.loc):
+            d['labels'] |= match_labels(f, w.loc)
     return pos
+
+
+def match_labels(f, loc):
+    """labels 'm:<Variant>=<const>' for constants assigned, in an arm of an enum match, to a local that
+    feeds the statement at loc"""
+    out = set()
+    s = f.at(loc)
+    if s['k'] != 'assign':
+        return out
+    leaf = ExprBuilder(f, multi='leaf')
+    rv = s['rv']
+    e = leaf.rvalue(rv)
+    seen = set()
+    work = [x[1] for x in subexprs(e) if x[0] == 'local']
+    phi = ExprBuilder(f, multi='phi')
+    while work:
+        l = work.pop()
+        if l in seen:
+            continue
+        seen.add(l)
+        defs = [d for d in f.defs.get(l, []) if not f.blocks[d[0][0]]['cleanup']]
+        if len(defs) < 2:
+            continue
+        for d in defs:
+            conds = [c for c in sqe.dominating_variants(f, d[0]) if c[0] and not c[0].startswith(('std::option::', 'std::result::', 'std::ops::', 'std::task::', 'callee:'))]
+            if not conds:
+                continue
+            val = phi.definition(d, 0, (l,))
+            for x in subexprs(val):
+                if x[0] == 'const' and (x[1] is not None or x[2]):
+                    nm = x[2]
+                    cn = str(nm).rsplit('::', 1)[1] if nm is not None and '::' in str(nm) else str(x[1])
+                    for c in conds:
+                        out.add('m:%s=%s' % (c[1], cn))
+                elif x[0] == 'local' and x[1] not in seen:
+                    work.append(x[1])
+    return out
